@@ -203,6 +203,14 @@ class Module:
                 for tgt in stmt.targets:
                     if isinstance(tgt, ast.Name):
                         self.constants[tgt.id] = stmt.value
+                        tc = stmt.type_comment
+                        if tc is None:
+                            tc = self.trailing_type_comment(stmt.end_lineno or stmt.lineno)
+                        if tc:
+                            try:
+                                self.const_annotations[tgt.id] = ast.parse(tc, mode="eval").body
+                            except SyntaxError:
+                                pass
                         if tgt.id == "__all__" and isinstance(
                             stmt.value, (ast.List, ast.Tuple)
                         ):
